@@ -1,2 +1,81 @@
-"""C01: join and meet return exactly the span / intersection (families shared with C02 in joinmeet.py)."""
-from checks import joinmeet  # noqa: F401
+"""C01: join and meet return exactly the span / intersection (families shared with C02 in joinmeet.py), and a history
+family: operands that have already been used in a join / meet are transformed, copied or given another object's
+coordinates and used again."""
+from __future__ import annotations
+
+import numpy as np
+
+from checks import c07 as C7
+from checks import joinmeet as JM
+from checks import xform as XF
+from mc import exact as X
+from mc.compare import proj_eq
+from mc.core import family
+
+HISTORY_KINDS = ("join_ll_3", "meet_ll_3", "join_lm_3", "meet_ml_3", "join_lp_3", "meet_el_3", "meet_em_3", "join_ppp_3", "meet_eee_3", "join_pp_2", "meet_ll_2")
+
+
+def enum_history(tier, seed):
+    for kind in HISTORY_KINDS:
+        for g in ("trans", "proj", "shear", "rot345"):
+            yield (kind, g)
+
+
+@family("C01", "used_then_derived", enum_history)
+def case_history(ctx, cfg):
+    import geometer as G
+
+    kind, g = cfg
+    op, spec, rk, n = JM.KINDS[kind]
+    dim = n - 1
+    M = XF.gen_matrix(dim, g)
+    MiT = X.transpose(X.inv(M))
+    t = XF.real_t(G, dim, g)
+    f = G.join if op == "join" else G.meet
+    argspec = JM.split_args(spec, list(range(JM.nvec(spec))))
+    oks = [v for v in C7.scope(kind, "quick") if JM.classify(kind, v)[0] == "ok"]
+    step = max(1, len(oks) // (40 if ctx.tier == "quick" else 400))
+    prev = None
+    for j in range(0, len(oks), step):
+        vecs = oks[j]
+        want0 = JM.exp_np(JM.classify(kind, vecs)[1])
+        tv = C7.transform_vecs(kind, vecs, M, MiT)
+        want1 = JM.exp_np(JM.classify(kind, tv)[1])
+        ctx.state((kind, g, vecs))
+        inputs = {"kind": kind, "generator": g, "vectors": vecs}
+        args = [JM.build(G, c, [vecs[p] for p in pos], "float64", n) for c, pos in argspec]
+        r0, e = ctx.call(f, *args)
+        ctx.trace()
+        if e is not None or not proj_eq(r0.array, want0, 1e-9):
+            ctx.fail(f"{kind}:first-use", op, inputs, want0, e if e is not None else r0.array)
+            return
+        # the operands, used once, are transformed and used again
+        targs, e = ctx.call(lambda: [t * a for a in args])
+        r1, e = ctx.call(f, *targs) if e is None else (None, e)
+        ctx.trace()
+        if e is not None or not proj_eq(r1.array, want1, 1e-9):
+            ctx.fail(f"{kind}:used-then-transformed", op, inputs, want1, e if e is not None else r1.array)
+            return
+        # ... copied and used again
+        r2, e = ctx.call(lambda: f(*[a.copy() for a in args]))
+        ctx.trace()
+        if e is not None or not proj_eq(r2.array, want0, 1e-9):
+            ctx.fail(f"{kind}:used-then-copied", op, inputs, want0, e if e is not None else r2.array)
+            return
+        # ... and the originals still answer as before
+        r3, e = ctx.call(f, *args)
+        if e is not None or not proj_eq(r3.array, want0, 1e-9):
+            ctx.fail(f"{kind}:original-after-derivation", op, inputs, want0, e if e is not None else r3.array)
+            return
+        # copies that are given the coordinates of the previous configuration's operands answer for those coordinates
+        if prev is not None:
+            pargs, pwant = prev
+            cargs = [a.copy() for a in args]
+            for c_, p_ in zip(cargs, pargs):
+                c_.array = p_.array.copy()
+            r4, e = ctx.call(f, *cargs)
+            ctx.trace()
+            if e is not None or not proj_eq(r4.array, pwant, 1e-9):
+                ctx.fail(f"{kind}:used-then-given-other-coordinates", op, inputs, pwant, e if e is not None else r4.array)
+                return
+        prev = (args, want0)
